@@ -108,6 +108,9 @@ func (c *checkCtx) main(replay string) (code int) {
 	for _, k := range c.knownLines {
 		fmt.Println(k)
 	}
+	if len(c.sigCount) > 0 {
+		fmt.Printf("mismatches by signature: %v\n", c.sigCount)
+	}
 	if len(c.violations) > 0 {
 		shown := 0
 		for _, v := range c.violations {
